@@ -276,6 +276,10 @@ func Input(l *InputSharedVars, g *GlobalVarsMain, hPath *HFilePath, driConfig *C
 									g.W[LTindex], g.WMIN[LTindex] = PTF4(g.CGEHALT[lindex], l.TON[lindex], l.SSAND[lindex])
 								}
 								g.PORGES[LTindex] = g.GPV[lindex] / 100
+								// the pore volume comes from the soil file, it has to hold the field capacity of the transfer function
+								if g.PORGES[LTindex] < g.W[LTindex] {
+									return fmt.Errorf("pore volume %.1f%% of horizon %d is below the field capacity %.1f%% from PTF %d (sand: %f, Silt: %f, Clay: %f, Corg: %f)", g.GPV[lindex], L, g.W[LTindex]*100, g.PTF, l.SSAND[lindex], l.SLUF[lindex], l.TON[lindex], g.CGEHALT[lindex])
+								}
 								g.WNOR[LTindex] = g.W[LTindex]
 
 								if L == 1 {
